@@ -4,7 +4,7 @@ from ..gen.checks import GenCheck, COMMON_ASSUMPTIONS
 
 ENGINE = "dgen+refsem"
 TECHNIQUE = "runtime monitoring: random well-formed designs emitted as real Transactron objects, simulated under hostile input valuations; per-cycle oracle = independent reference semantics over sampled run/data/witness signals"
-CHECK = GenCheck("C07", ("C07:",), {"nonex_weight": 1.5, "max_sb": 3, "p_double_conflict": 0.3}, scheds=("eager",), cond=True, nontrivial_counter="enabled_but_blocked_cycles")
+CHECK = GenCheck("C07", ("C07:",), {"nonex_weight": 1.5, "max_sb": 3, "p_double_conflict": 0.3, "p_nonex_depth": 0.4}, scheds=("eager",), cond=True, nontrivial_counter="enabled_but_blocked_cycles")
 shards, run_shard = CHECK.shards, CHECK.run_shard
 ASSUMPTIONS = COMMON_ASSUMPTIONS
 RULE = ("[plus condition() designs of the cond profile: with no outside transaction asking to run, the enclosing body and its caller run iff fully enabled] random well-formed designs under eager_deterministic_cc_scheduler (calls in different alternatives from two transactions, nonexclusive common ancestors, schedule_before chains); oracle: a fully enabled transaction that does not run has a running transaction that conflicts with it under the reference conflict relation (shared exclusive method on non-exclusive paths, or add_conflict) - schedule_before pairs, exclusive alternatives and nonexclusive sharing are not excuses; non-trivial design = some enabled-but-blocked cycle; distinct = design shape signature")
